@@ -190,7 +190,7 @@ def run(ctx: lib.Ctx) -> None:
     table_ok = list(K.VALID_MNEMONIC_LENGTHS) == [12, 15, 18, 21, 24] and len(ck._mnemonic().wordlist) == 2048
 
     # ---- keys: derivation, texts, export / import
-    per_curve = {b'ed': ctx.n(5, 40), b'sp': ctx.n(4, 40), b'p2': ctx.n(4, 40), b'BL': ctx.n(3, 30)}
+    per_curve = {b'ed': ctx.n(3, 40), b'sp': ctx.n(3, 40), b'p2': ctx.n(3, 40), b'BL': ctx.n(2, 30)}
     for curve in ck.CURVES:
         c = curve.decode()
         for ki in range(per_curve[curve]):
